@@ -132,6 +132,17 @@ def signature(o):
 
 
 def observe(case):
+    if case.get("twice"):
+        # the same case again after other objects were made in the same process: same outcome
+        plain = {k: v for k, v in case.items() if k != "twice"}
+        out = observe(plain)
+        for b in case["twice"].get("between", []):
+            for allow in (True, False):
+                attempt(lambda: make(b, allow))
+        again = observe(plain)
+        out["signature"] = signature(out)
+        out["again_signature"] = signature(again)
+        return out
     if case.get("late"):
         try:
             register_late(case)
@@ -180,6 +191,10 @@ def observe(case):
 
 def judge(case, o):
     fails = []
+    if case.get("twice") and o.get("signature") != o.get("again_signature"):
+        fails.append({"kind": "same-input-different-outcome",
+                      "detail": {"site": case.get("site"), "first": o.get("signature"), "again": o.get("again_signature"),
+                                 "order": "strict_ok, strict error, allow_ok, allow gives object, has_custom, strict reparse ok"}})
     if case.get("late") and "signature" in o and o["signature"] != o["control_signature"]:
         fails.append({"kind": "registration-time-changes-outcome",
                       "detail": {"site": case.get("site"), "late_registered": o["signature"], "registered_up_front": o["control_signature"],
